@@ -262,7 +262,7 @@ def run_kani(prop, tier, hs, jobs):
             if hr['status'] != 'fail':
                 continue
             rc1, out1, w1 = scratch.cargo_kani([h['full']], jobs=1, harness_timeout=to,
-                                               extra=['-Z', 'concrete-playback', '--concrete-playback=print'], overall_timeout=to + 600)
+                                               extra=['-Z', 'concrete-playback', '--concrete-playback=print'], overall_timeout=to + 600, mem_gb=32)
             res['wall'] += w1
             hr['single_log_tail'] = out1[-3000:]
             st1, failed1 = kani_crate.classify(out1)
